@@ -156,13 +156,18 @@ HDR_NAMES = [b'Date', b'From', b'Sender', b'Reply-To', b'To', b'Cc', b'Bcc', b'S
              b'Content-Location', b'Content-Id', b'Content-Description', b'MIME-Version']
 HDR_VALUES = [b'', b'x', b'a@b', b'Mon, 6 Jan 2020 10:00:00 +0100', b'garbage 99', b'<<<>>>,,,"', b'"', b'<', b'"a" <',
               b'a@[', b',', b'(', b'g:;', b'g: a@b, <c@d>;', b' ', b';;;=', b'multipart/mixed', b'message/rfc822',
-              b'text/plain; charset*=utf-8\'\'%ff', b'=?utf-8?q?=ff?=', b'\xff\xfe', b're: re: [x] fwd: y']
+              b'text/plain; charset*=utf-8\'\'%ff', b'=?utf-8?q?=ff?=', b'\xff\xfe', b're: re: [x] fwd: y',
+              b'multipart/mixed; boundary=b', b'base64', b'quoted-printable']
+# bodies: plain, multipart with an empty part / with an empty and a non-empty part, bad base64 padding, bad quoted-printable
+BODIES = [b'x', b'--b\r\n--b--\r\n', b'--b\r\n--b\r\n\r\nx\r\n--b--\r\n', b'abc', b'=ZZ=', b'']
 FETCH_ALL = (b'(ENVELOPE BODYSTRUCTURE BODY RFC822.SIZE INTERNALDATE RFC822.HEADER BODY[1] BODY[1.MIME] '
-             b'BODY[HEADER.FIELDS (to)] BODY[TEXT] BINARY.SIZE[1] EMAILID THREADID)')
+             b'BODY[HEADER.FIELDS (to)] BODY[TEXT] BINARY.SIZE[1] BINARY.PEEK[1] BODY[2] EMAILID THREADID)')
 SEARCH_ALL = b'SENTBEFORE 1-Jan-2020 SENTON 6-Jan-2020 FROM x TO y CC z BCC w HEADER sender a SUBJECT s BODY b TEXT t'
 
 
 def headers_scenario(g, sim, conn_mod, picks, body=b'x'):
+    if isinstance(body, int):
+        body = BODIES[body]
     msg = b''.join(HDR_NAMES[h] + b': ' + HDR_VALUES[v] + b'\r\n' for h, v in picks) + b'\r\n' + body
     feed = [b'l LOGIN testuser testpass\r\n', b'a APPEND INBOX {%d+}\r\n' % len(msg) + msg + b'\r\n', b's SELECT INBOX\r\n',
             b'f FETCH * ' + FETCH_ALL + b'\r\n', b'q SEARCH ' + SEARCH_ALL + b'\r\n', b'n NOOP\r\n']
@@ -183,8 +188,61 @@ def h_headers(g_ref, nheaders):
                 return Outcome(True, witness=lambda m: {'picks': []}, site='symmetric')
             last = h
             picks.append((h, eng.choose('v%d' % i, len(HDR_VALUES))))
-        err = headers_scenario(g, g['_sim'], _conn, picks)
-        return Outcome(err is None, witness=lambda m: {'picks': picks}, info=err)
+        # the body shape matters for the headers that decide how the body is read
+        shaped = any(HDR_NAMES[h] in (b'Content-Type', b'Content-Transfer-Encoding') for h, _ in picks)
+        body = eng.choose('body', len(BODIES)) if shaped else 0
+        err = headers_scenario(g, g['_sim'], _conn, picks, body)
+        return Outcome(err is None, witness=lambda m: {'picks': picks, 'body': body}, info=err)
+    return fn
+
+
+# ------------------------------------------------------------------ very long digit runs / search strings that get executed
+DIGIT_LINES = [b'k LOGIN {%D+}', b'k LOGIN {%D}', b'k SEARCH LARGER %D', b'k FETCH %D FLAGS', b'k UID FETCH 1:%D FLAGS',
+               b'k FETCH 1 BODY[]<%D.1>', b'k FETCH 1 BODY[]<1.%D>', b'k FETCH 1 BODY[%D]', b'k APPEND INBOX {%D}',
+               b'k APPEND INBOX {%D+}', b'k SEARCH ON 1-Jan-%D', b'k STORE %D +FLAGS (\\Seen)', b'k UID EXPUNGE %D',
+               b'k STATUS INBOX (MESSAGES) %D', b'k SEARCH UID %D:*', b'k COPY 1:%D INBOX']
+# (BODY / TEXT build a regular expression from the string: re.escape of symbolic bytes is not modelled - outside)
+SEARCH_STRING_KEYS = [b'HEADER "%S" x', b'HEADER to "%S"', b'SUBJECT "%S"', b'FROM "%S"', b'KEYWORD "%S"',
+                      b'CC "%S"', b'BCC "%S"', b'TO "%S"', b'UNKEYWORD "%S"']
+
+
+def executed_line_scenario(g, sim, conn_mod, line_items, mk=bytes):
+    msg = b'To: a\r\nSubject: b\r\n\r\nx'
+    line = mk(list(line_items)) if not isinstance(line_items, (bytes, bytearray)) else bytes(line_items)
+    feed = [b'l LOGIN testuser testpass\r\n', b'a APPEND INBOX {%d+}\r\n' % len(msg) + msg + b'\r\n', b's SELECT INBOX\r\n',
+            line, b'n NOOP\r\n']
+    out, leftover, exc = run_lines(g, sim, conn_mod, feed)
+    return verdict(out, leftover, exc, [b'n'])
+
+
+def h_digit_runs(g_ref, ndigits):
+    def fn(eng):
+        from pysymex import fresh_bytes, SymBytes, Outcome
+        from checks import _conn
+        which = eng.choose('line', len(DIGIT_LINES))
+        # the run itself is concrete: the engine's regular-expression matcher recurses per character and cannot take
+        # thousands of them (a symbolic digit inside the run made the two executions diverge)
+        pre, _, post = DIGIT_LINES[which].partition(b'%D')
+        items = pre + b'1' * ndigits + post + b'\r\n'
+        wit = lambda m: {'line': which, 'ndigits': ndigits, 'd': '31'}  # noqa: E731
+        err = executed_line_scenario(g_ref, g_ref['_sim'], _conn, items)
+        return Outcome(err is None, witness=wit, info=err)
+    return fn
+
+
+def h_search_strings(g_ref, n):
+    def fn(eng):
+        from pysymex import fresh_bytes, SymBytes, Outcome
+        from checks import _conn
+        which = eng.choose('key', len(SEARCH_STRING_KEYS))
+        sbytes = fresh_bytes(eng, 's', n)
+        for c in sbytes.items:      # quoted-string content
+            eng.add((c.t != 34) & (c.t != 92) & (c.t != 13) & (c.t != 10) & (c.t != 0))
+        pre, _, post = SEARCH_STRING_KEYS[which].partition(b'%S')
+        items = list(b'k SEARCH CHARSET UTF-8 ') + list(pre) + sbytes.items + list(post) + [13, 10]
+        wit = lambda m: {'key': which, 's': bytes(sbytes.eval(m)).hex()}  # noqa: E731
+        err = executed_line_scenario(g_ref, g_ref['_sim'], _conn, items, lambda it: SymBytes(it, 'bytes'))
+        return Outcome(err is None, witness=wit, info=err)
     return fn
 
 
@@ -227,13 +285,23 @@ def h_deep(g_ref, kind, depth, nsym):
 
 
 def replay(harness, w):
+    if harness in ('digitruns', 'searchstrings'):
+        from checks import _sim, _conn
+        if harness == 'digitruns':
+            pre, _, post = DIGIT_LINES[w['line']].partition(b'%D')
+            line = pre + b'1' * (w['ndigits'] - 1) + bytes.fromhex(w['d']) + post + b'\r\n'
+        else:
+            pre, _, post = SEARCH_STRING_KEYS[w['key']].partition(b'%S')
+            line = b'k SEARCH CHARSET UTF-8 ' + pre + bytes.fromhex(w['s']) + post + b'\r\n'
+        err = executed_line_scenario(bindings(), _sim, _conn, line)
+        return {'violates': err is not None, 'detail': err, 'category': (err or '')[:70]}
     if harness == 'deepmsg':
         from checks import _sim, _conn
         err = deep_scenario(bindings(), _sim, _conn, w['kind'], w['depth'], bytes.fromhex(w['tail']))
         return {'violates': err is not None, 'detail': err, 'category': (err or '')[:70]}
     if harness == 'msgheaders':
         from checks import _sim, _conn
-        err = headers_scenario(bindings(), _sim, _conn, [tuple(x) for x in w['picks']])
+        err = headers_scenario(bindings(), _sim, _conn, [tuple(x) for x in w['picks']], w.get('body', 0))
         return {'violates': err is not None, 'detail': err, 'category': (err or '')[:70]}
     from checks import _sim, _conn
     g = bindings()
